@@ -106,11 +106,15 @@ impl<Key, Value> Store<Key, Value>
     }
 
     pub(crate) fn put(&self, key: Key, value: Value, key_id: KeyId) {
+        #[cfg(feature = "cached_verif")]
+        crate::cache::verif::point("store.put");
         self.store.insert(key, StoredValue::never_expiring(value, key_id));
         self.stats_counter.add_key();
     }
 
     pub(crate) fn put_with_ttl(&self, key: Key, value: Value, key_id: KeyId, time_to_live: Duration) -> ExpireAfter {
+        #[cfg(feature = "cached_verif")]
+        crate::cache::verif::point("store.put");
         let stored_value = StoredValue::expiring(value, key_id, time_to_live, &self.clock);
         let expire_after = stored_value.expire_after();
 
@@ -121,6 +125,8 @@ impl<Key, Value> Store<Key, Value>
     }
 
     pub(crate) fn delete(&self, key: &Key) -> Option<KeyIdExpiry> {
+        #[cfg(feature = "cached_verif")]
+        crate::cache::verif::point("store.remove");
         if let Some(pair) = self.store.remove(key) {
             self.stats_counter.delete_key();
             return Some(KeyIdExpiry(pair.1.key_id(), pair.1.expire_after()));
@@ -136,6 +142,8 @@ impl<Key, Value> Store<Key, Value>
     }
 
     pub(crate) fn get_ref(&self, key: &Key) -> Option<KeyValueRef<'_, Key, StoredValue<Value>>> {
+        #[cfg(feature = "cached_verif")]
+        crate::cache::verif::point("store.get");
         let mapped_value = self.contains(key);
         if mapped_value.is_some() { self.stats_counter.found_a_hit(); } else { self.stats_counter.found_a_miss(); }
         mapped_value
@@ -165,6 +173,8 @@ impl<Key, Value> Store<Key, Value>
     }
 
     pub(crate) fn is_present(&self, key: &Key) -> bool {
+        #[cfg(feature = "cached_verif")]
+        crate::cache::verif::point("store.present");
         let maybe_value = self.store.get(key);
         maybe_value.is_some()
     }
@@ -181,6 +191,8 @@ impl<Key, Value> Store<Key, Value>
     where Key: Hash + Eq,
           Value: Clone, {
     pub(crate) fn get(&self, key: &Key) -> Option<Value> {
+        #[cfg(feature = "cached_verif")]
+        crate::cache::verif::point("store.get");
         let maybe_value = self.store.get(key);
         let mapped_value = maybe_value
             .filter(|stored_value| stored_value.is_alive(&self.clock))
@@ -188,6 +200,27 @@ impl<Key, Value> Store<Key, Value>
 
         if mapped_value.is_some() { self.stats_counter.found_a_hit(); } else { self.stats_counter.found_a_miss(); }
         mapped_value
+    }
+}
+
+#[cfg(feature = "cached_verif")]
+impl<Key, Value> Store<Key, Value>
+    where Key: Hash + Eq + Clone,
+          Value: Clone, {
+    /// All physically present entries: (key, value, key id, expiry, soft-deleted).
+    pub(crate) fn verif_entries(&self) -> Vec<(Key, Value, KeyId, Option<ExpireAfter>, bool)> {
+        self.store.iter().map(|pair| (pair.key().clone(), pair.value().value(), pair.value().key_id(), pair.value().expire_after(), pair.value().is_soft_deleted)).collect()
+    }
+}
+
+#[cfg(feature = "cached_verif")]
+pub fn verif_type_of_expiry_update(key_id: KeyId, existing: Option<ExpireAfter>, new: Option<ExpireAfter>) -> (u8, Option<ExpireAfter>, Option<ExpireAfter>) {
+    let response: UpdateResponse<()> = UpdateResponse(Some(KeyIdExpiry(key_id, existing)), new, None);
+    match response.type_of_expiry_update() {
+        TypeOfExpiryUpdate::Nothing => (0, None, None),
+        TypeOfExpiryUpdate::Added(_, expiry) => (1, Some(expiry), None),
+        TypeOfExpiryUpdate::Deleted(_, expiry) => (2, Some(expiry), None),
+        TypeOfExpiryUpdate::Updated(_, old, new) => (3, Some(old), Some(new)),
     }
 }
 
